@@ -108,6 +108,17 @@ CHECKS.update({
    technique="inductive step on the loop body extracted from the real AST + bounded symbolic execution (PYSYM) + z3"),
 })
 
+CHECKS.update({
+ 'C02': dict(engine="PYSYM+LLSYM", category="other",
+   text="Modes only: the real mode classes (ECB, CBC, CFB with every segment size, OFB, CTR with nonce/int/bytes initial values, OpenPGP; the AEAD senders of C01: GCM, CCM, EAX, SIV, OCB, ChaCha20-Poly1305, KW, KWP) are executed symbolically over an uninterpreted bijective block cipher of block size 8 or 16: z3 decides ciphertext (and tag) == SP 800-38A/B/C/D/F, RFC 4880 s13.9, RFC 5297, RFC 7253, RFC 8439 for all keys/IVs/messages of the length grid, decrypt(encrypt(M)) = M for a peer built only from the exposed iv/nonce (also when the library chose it: the value is exactly the RNG draw), 3DES parity adjustment and degenerate-key refusal, the C kernels raw_ecb/cbc/cfb/ofb/ctr.c against the same equations, and the full quarter-round network of src/chacha20.c term for term against RFC 8439 s2.3.",
+   note="The block and stream primitives themselves (AES, DES, 3DES, Blowfish, CAST, RC2, RC4, Salsa20 core) are ASSUMED equal to their standards (KAT-tested; not decidable by this technique without a second implementation); AESNI.c, Salsa20/ARC4 wrappers and messages beyond the grids are outside.",
+   technique="bounded symbolic execution of the real Python (PYSYM) and C from LLVM IR (LLSYM) over an uninterpreted bijective block cipher + z3"),
+ 'C09': dict(engine="PYSYM+LLSYM", category="other",
+   text="Symbolic differential between two objects of the same real class: feed(S1);feed(S2) vs feed(S1||S2) for every cut offset of the grid (AEAD associated-data and message streams, classic modes, ChaCha20, CMAC, HMAC, with copy() mid-stream), the same data carried as bytes/bytearray/memoryview/odd-offset memoryview slice, and results returned vs output=bytearray vs output=memoryview vs output = the input buffer (incl. that the AEAD MAC is computed over the ciphertext when it is overwritten in place); plus the C streaming state of raw_cbc/cfb/ofb/ctr.c, the MD hashes, keccak absorb/squeeze and Poly1305 buffering across calls (LLSYM).",
+   note="Streams of 33 bytes (CBC 48, HMAC 70) with cuts around the block/cache sizes in quick and at every offset in thorough; k-segmentations follow from 2-segmentations by induction observed through later outputs (state is not compared field by field).  KangarooTwelve chunking, Salsa20, SIV component vectors beyond the C01 grid, longer streams and the real cffi/ctypes pointer conversions are outside.",
+   technique="symbolic differential execution of the real Python (PYSYM) and C streaming kernels (LLSYM) + z3"),
+})
+
 ENGINES = [
     dict(name="PYSYM", path="vlib/pysym", kind_free_text="bounded symbolic execution of the real Python source (AST-rewritten import, symbolic bytes/int proxies, fork by re-execution under a decision prefix) decided by z3"),
     dict(name="LLSYM", path="vlib/llsym", kind_free_text="symbolic interpreter of clang-14 LLVM IR (-O0 + mem2reg) of /repo/src/*.c into z3 terms, bounds-checked memory model, local path exploration with ite-merge at function returns; replay on the gcc-built C through ctypes"),
